@@ -278,35 +278,36 @@ def concrete_grow_family(htu, tier):
                             if w:
                                 return '%s fails but has stored %r' % (what, [e[1][1:] for e in w]), n
                         continue
-                    if len(succ) != 1:
-                        return '%s has %d successful paths; the specification requires success (old size %d)' % (what, len(succ), pg), n
-                    p = succ[0]
-                    st = {e[1][1]: e[1][2] for e in p.events if e[0] == 'write' and e[1][1] in ('pages', 'size', 'data')}
-                    if p.ret != pg:
-                        return '%s returns %r, specification: the old size %d' % (what, p.ret, pg), n
-                    if dl == 0 and not st:
-                        continue        # nothing to do
-                    if st.get('pages', pg) != pg + dl or (('size' in st) and st['size'] != (pg + dl) * 65536):
-                        return '%s leaves pages = %r, size = %r; specification: %d pages, %d bytes' % (what, st.get('pages'), st.get('size'), pg + dl, (pg + dl) * 65536), n
-                    re_ev = [e for e in p.events if e[0] == 'realloc']
-                    ms = [e for e in p.events if e[0] == 'memset']
-                    if shared:
-                        if re_ev or 'data' in st:
-                            return '%s reallocates / moves the storage other threads are using' % what, n
-                        continue
-                    if dl == 0 and not re_ev and 'data' not in st:
-                        continue        # nothing to allocate: the descriptor may be rewritten with the same values
-                    if len(re_ev) != 1 or re_ev[0][1][1] != (pg + dl) * 65536:
-                        return '%s requests %r bytes from realloc; %d pages need %d bytes' % (what, [e[1][1] for e in re_ev], pg + dl, (pg + dl) * 65536), n
-                    if dl:
-                        okm = False
-                        if len(ms) == 1:
-                            f = lin(ms[0][1][0])
-                            okm = f is not None and {k: c for k, c in f.items() if k != 1} == {rr: 1} and f.get(1, 0) == pg * 65536 and \
-                                ms[0][1][1] == 0 and ms[0][1][2] == dl * 65536
-                        if not okm:
-                            return '%s clears %r; the new pages are the %d bytes from offset %d of the reallocated block' % (
-                                what, [e[1] for e in ms], dl * 65536, pg * 65536), n
+                    if not succ:
+                        return '%s has no successful path; the specification requires success (old size %d)' % (what, pg), n
+                    # several successful paths (a branch on the unknown storage pointer, say): each must meet the specification
+                    for p in succ:
+                        st = {e[1][1]: e[1][2] for e in p.events if e[0] == 'write' and e[1][1] in ('pages', 'size', 'data')}
+                        if p.ret != pg:
+                            return '%s returns %r, specification: the old size %d' % (what, p.ret, pg), n
+                        if dl == 0 and not st:
+                            continue        # nothing to do
+                        if st.get('pages', pg) != pg + dl or (('size' in st) and st['size'] != (pg + dl) * 65536):
+                            return '%s leaves pages = %r, size = %r; specification: %d pages, %d bytes' % (what, st.get('pages'), st.get('size'), pg + dl, (pg + dl) * 65536), n
+                        re_ev = [e for e in p.events if e[0] == 'realloc']
+                        ms = [e for e in p.events if e[0] == 'memset']
+                        if shared:
+                            if re_ev or 'data' in st:
+                                return '%s reallocates / moves the storage other threads are using' % what, n
+                            continue
+                        if dl == 0 and not re_ev and 'data' not in st:
+                            continue        # nothing to allocate: the descriptor may be rewritten with the same values
+                        if len(re_ev) != 1 or re_ev[0][1][1] != (pg + dl) * 65536:
+                            return '%s requests %r bytes from realloc; %d pages need %d bytes' % (what, [e[1][1] for e in re_ev], pg + dl, (pg + dl) * 65536), n
+                        if dl:
+                            okm = False
+                            if len(ms) == 1:
+                                f = lin(ms[0][1][0])
+                                okm = f is not None and {k: c for k, c in f.items() if k != 1} == {rr: 1} and f.get(1, 0) == pg * 65536 and \
+                                    ms[0][1][1] == 0 and ms[0][1][2] == dl * 65536
+                            if not okm:
+                                return '%s clears %r; the new pages are the %d bytes from offset %d of the reallocated block' % (
+                                    what, [e[1] for e in ms], dl * 65536, pg * 65536), n
     return None, n
 
 
